@@ -114,7 +114,8 @@ Inductive kkind := KCall | KPush | KUnbound | KPushOut.
 (* K0 spawned and counted (gate handle.enter) / outgoing push before its pre-write hooks;
    K1 user handler running; K2 at the write's status check (gate call.prereply);
    K2w admitted, socket write pending; K4 before putContext *)
-Inductive kpc := K0 | K1 | K2 | K2w | K4 | KDone.
+Inductive kpc := K0 | K1 | K2 | K2w | K4 | KDone
+| K1w (i : nat).   (* the user handler waits for the completion of call i of this session *)
 Inductive kres := WrNone | WrWritten | WrRefused | WrFailedClosed | WrFailedOther | WrVeto.
 
 Record hctx := mkHctx {
